@@ -207,6 +207,9 @@ def mm(op, input, other):
             )
             and input.qtype == qint8
             and other.qtype == qint8
+            # The scales can only be applied to the outputs if they are not indexed by the contracted dimension
+            and input.axis != -1
+            and other.axis != 0
             and n > 16
             and n % 8 == 0
             and m % 8 == 0
